@@ -73,7 +73,7 @@ func c18Gen(r *rand.Rand, tier string) any {
 			// the same loaded project
 			op = opSpec{Op: "build", Label: op.Label, DryNil: true, N: r.IntN(2), Fail: op.Fail}
 		}
-		if r.IntN(7) == 0 && !op.Twice && !op.DryNil && !op.Reload {
+		if r.IntN(7) == 0 && !op.DryNil && !op.Reload {
 			// the REPL: run(label, always=, dry_run=, callback=f) - the events reach a Starlark
 			// callback through the channel-based adapter in events.go
 			op.REPL, op.N = true, 0
@@ -291,8 +291,42 @@ func c18Exec(scAny any, c *simcheck.Ctx) *simcheck.Violation {
 			return nil
 		}
 		if op.REPL {
-			c.St.Count("runs_through_the_repl_builtin_checked", 1)
-			return checkReplEvents(h, op, h.w.replEvents, res.RunErr)
+			// one or two run() calls on the loaded project: the callback's stream is cut at run-done
+			var runs [][]eventRec
+			var cur []eventRec
+			for _, e := range h.w.replEvents {
+				cur = append(cur, e)
+				if e.Kind == "RunDone" {
+					runs = append(runs, cur)
+					cur = nil
+				}
+			}
+			want := 1
+			if op.Twice {
+				want = 2
+			}
+			if len(runs) != want || len(cur) > 0 {
+				for _, e := range cur {
+					if e.Label != op.Label {
+						return nil // late events of other targets after a cyclic failure: not attributable
+					}
+				}
+				return simcheck.V("run-done-count", "%d run() call(s) with a callback delivered %d run-done events (and %d events after the last)", want, len(runs), len(cur))
+			}
+			for ri, evs := range runs {
+				c.St.Count("runs_through_the_repl_builtin_checked", 1)
+				runErr := res.RunErr
+				if op.Twice && ri == 0 {
+					runErr = res.FirstRunErr
+				}
+				if v := checkReplEvents(h, op, evs, runErr); v != nil {
+					if op.Twice {
+						v.Msg = fmt.Sprintf("(run() call %d of 2 on one loaded project) %s", ri+1, v.Msg)
+					}
+					return v
+				}
+			}
+			return nil
 		}
 		// "evaluating is reported exactly when the body runs (or would, in a dry run)"
 		if op.Dry && !op.Twice && op.N == 0 && res.RunErr == nil {
